@@ -12,9 +12,9 @@ D = "pyModeS.streamer.decode.Decode."
 property_level("C17", "other", "robustness, staleness, Comm-B gating, canonical keys and the plumbing of stored positions are "
                "discharged deductively by induction over the history (record invariant: base + one-call step from an "
                "arbitrary record, for ADS-B messages of every type code and Comm-B replies of every inference class); "
-               "the induction principle itself and the kinematic argument that a 600-kt trajectory keeps the "
-               "preconditions of C03-C05 are not machine-checked, and the 0.001-degree accuracy clause end to end is only "
-               "simulated (bounded)")
+               "the kinematic side conditions (a 600-kt trajectory keeps the preconditions of C03 / C04) are a table "
+               "obligation; the induction principle itself is not machine-checked, surface pairs faster than 252 kt are "
+               "outside C05's precondition, and the 0.001-degree accuracy clause end to end is only simulated (bounded)")
 
 ADDR = {"A": "101010111100110111101111", "B": "000000010010001101000101"}     # ABCDEF, 012345
 
